@@ -873,6 +873,12 @@ def explore(fn, max_paths=200000, wall_cap=None, want_witness=True):
                 if r != "unsat":
                     reason = s.reason_unknown()
                     s.pop()
+                    # the solver could neither prove nor refute: look for a concrete witness of a violation (a "sat" answer only needs one,
+                    # and it is replayed like any solver model); without one the instance stays inconclusive - never "held"
+                    w = _witness_search(fn, dict(decls, **V.decls))
+                    if w is not None:
+                        return dict(result="cex", values=w[0], failed=w[1], paths=paths, reached=reached, stats=stats, decls=decls,
+                                    wall_s=time.time() - t0, claims=sorted(claims_seen), found_by="concrete witness search after solver unknown")
                     return dict(result="inconclusive", why="final query unknown: %s" % reason, paths=paths,
                                 reached=reached, stats=stats, wall_s=time.time() - t0)
                 s.pop()
@@ -896,6 +902,53 @@ def explore(fn, max_paths=200000, wall_cap=None, want_witness=True):
                     stats=stats, wall_s=time.time() - t0)
     return dict(result="holds", paths=paths, reached=reached, stats=stats, witness=witness, decls=decls,
                 wall_s=time.time() - t0, claims=sorted(claims_seen))
+
+
+def _witness_search(fn, decls, tries=120):
+    """deterministic pseudo-random concrete assignments over the declared variables; returns (values, failed claims) of the first one
+    that satisfies the assumptions and violates a claim on the real (unshimmed) code"""
+    import random
+    import struct
+
+    rnd = random.Random(12345)
+
+    def pick(d):
+        kind = d[0]
+        if kind == "int":
+            lo = d[1] if d[1] is not None else -(1 << 20)
+            hi = d[2] if d[2] is not None else (1 << 20)
+            return rnd.choice([lo, hi, (lo + hi) // 2, rnd.randint(lo, hi), rnd.randint(lo, min(hi, lo + 16))])
+        if kind == "bool":
+            return rnd.random() < 0.5
+        if kind == "float":
+            x = rnd.choice([rnd.uniform(1e-3, 1.0), rnd.uniform(1e-4, 4.0), 2.0 ** rnd.randint(-12, 3) * rnd.uniform(1, 2)])
+            if d[1] == "f32":
+                bits = struct.unpack("<I", struct.pack("<f", x))[0]
+                return {"fpbits": bits, "ebits": 8, "sbits": 24}
+            return {"fpbits": struct.unpack("<Q", struct.pack("<d", x))[0], "ebits": 11, "sbits": 53}
+        if kind == "np":
+            bits = {"int8": 8, "int16": 16, "int32": 32, "int64": 64}.get(d[1], 32)
+            return {"bv": rnd.getrandbits(bits) if rnd.random() < 0.7 else rnd.choice([0, 1, (1 << (bits - 1)) - 1, 1 << (bits - 1)]), "bits": bits}
+        if kind == "big":
+            lo, hi = d[1], d[2]
+            bits = max(abs(lo), abs(hi) + 1).bit_length() + 1
+            v = rnd.choice([lo, hi, rnd.randint(lo, hi)])
+            return {"bv": v & ((1 << bits) - 1), "bits": bits}
+        return None
+
+    for _ in range(tries):
+        values = {}
+        for name, d in decls.items():
+            v = pick(d)
+            if v is not None:
+                values[name] = v
+        try:
+            res, failed = run_concrete(fn, values)
+        except BaseException:  # noqa - a candidate that crashes the harness is simply not a witness
+            continue
+        if res == "violated":
+            return values, failed
+    return None
 
 
 def run_concrete(fn, values):
